@@ -23,7 +23,7 @@ CumSums(q, acc) == IF q = <<>> THEN <<>> ELSE <<acc + Head(q)>> \o CumSums(Tail(
 Base(fr, plen, fe, cws, cds) ==
   [framing |-> fr, headEnd |-> HeadLen, payloadLen |-> plen, frameEnd |-> fe, wireLen |-> fe,
    cw |-> cws, cd |-> cds, faultKind |-> "none", faultAt |-> 0, status |-> 200, reject |-> FALSE,
-   g19 |-> TRUE, textLen |-> 0]
+   g19 |-> TRUE, textLen |-> 0, coding |-> "identity", codedEnd |-> 0]
 
 Intact ==
   UNION {
